@@ -173,6 +173,26 @@ def prepare(tmp, seed):
     foreign = os.path.join(tmp, 'foreign.gs')
     dump_signatures(foreign, SignatureArray([W.real_signature([7, 'ATG'], q['contigs']) for q in pool[:3]], KmerSpec(7, 'ATG')))
     envs = [dict(name='tiny', db=tiny, files=files, good=good, foreign=foreign, kspec=tuple(w['kspec']))]
+    # damaged / unusual genome files: commands may fail on them, but read-side use must still not write a byte
+    import sqlite3
+    for name, how in (('no-taxa-table', 'drop-taxa'), ('empty-genome-file', 'empty'), ('foreign-sqlite', 'foreign')):
+        d = os.path.join(tmp, 'db_' + name)
+        shutil.copytree(tiny, d)
+        g = os.path.join(d, 'ref.gdb')
+        if how == 'drop-taxa':
+            con = sqlite3.connect(g)
+            con.execute('UPDATE genome_annotations SET taxon_id = NULL')
+            con.execute('DROP TABLE taxa')
+            con.commit(); con.execute('VACUUM'); con.close()
+        elif how == 'empty':
+            open(g, 'wb').close()
+        else:
+            os.remove(g)
+            con = sqlite3.connect(g)
+            con.execute('CREATE TABLE notes (id INTEGER PRIMARY KEY, body TEXT)')
+            con.execute("INSERT INTO notes (body) VALUES ('not a gambit database')")
+            con.commit(); con.close()
+        envs.append(dict(name=name, db=d, files=files, good=good, foreign=foreign, kspec=tuple(w['kspec']), lenient=True))
     import glob
     bq = sorted(glob.glob(os.path.join(BUNDLED, 'queries', 'genomes', '*.fasta')))[:4]
     if os.path.exists(os.path.join(BUNDLED, 'ref-genomes.gdb')) and len(bq) >= 3:
@@ -222,9 +242,14 @@ def run(ctx):
     try:
         envs = prepare(tmp, ctx.seed)
         jobs = []
+        sound = [e for e in envs if not e.get('lenient')]
         for i, h in enumerate(hists):
-            env = envs[i % len(envs)]
-            jobs.append((i, h, env))
+            jobs.append((i, h, sound[i % len(sound)]))
+        # damaged / foreign genome files: the hand-picked histories and a few generated ones on each
+        for e in envs:
+            if e.get('lenient'):
+                for h in hists[-len(must):] + hists[:4]:
+                    jobs.append((len(jobs), h, e))
 
         def one(job):
             i, h, env = job
@@ -233,10 +258,12 @@ def run(ctx):
                 return rp.run(h)
             finally:
                 shutil.rmtree(rp.work, ignore_errors=True)
+                import gc
+                gc.collect()          # connections of failed loads are finalised in the thread that made them
         with ThreadPoolExecutor(10) as ex:
             all_obs = list(ex.map(one, jobs))
         nsteps = sum(len(o) for o in all_obs)
-        recs = [dict(db=env['name'], steps=[dict(cmd=o['cmd'], outcome=o['outcome'], pending=o['pending'], unchanged=o['unchanged'], journal=o['journal']) for o in obs])
+        recs = [dict(db=env['name'], lenient=bool(env.get('lenient')), steps=[dict(cmd=o['cmd'], outcome=o['outcome'], pending=o['pending'], unchanged=o['unchanged'], journal=o['journal']) for o in obs])
                 for (i, h, env), obs in zip(jobs, all_obs)]
         n_j, bad = tlc.judge('Judge_C18', recs)
         for i, why in bad:
